@@ -11,11 +11,11 @@ from . import common
 # ---------------------------------------------------------------------------------------------------
 # the three key kinds of an expression decomposition
 # ---------------------------------------------------------------------------------------------------
-def _key_kind(test, keyvar):
+def _key_kind(test, keyvar, type_aliases=()):
     """'leaf' for type(k) == Expression, 'pair' for type(k) == tuple, 'const' for k == 1."""
     if isinstance(test, ast.Compare) and len(test.ops) == 1 and isinstance(test.ops[0], (ast.Eq, ast.Is)):
         l, r = test.left, test.comparators[0]
-        if isinstance(l, ast.Call) and call_name(l) == "type" and l.args and dotted(l.args[0]) == keyvar:
+        if (isinstance(l, ast.Call) and call_name(l) == "type" and l.args and dotted(l.args[0]) == keyvar) or (isinstance(l, ast.Name) and l.id in type_aliases):
             if dotted(r) == "Expression":
                 return "leaf"
             if dotted(r) == "tuple":
@@ -49,12 +49,23 @@ def find_consumers(repo):
                 key, weight = lp.target.id, None
             else:
                 continue
-            if not lp.body or not isinstance(lp.body[0], ast.If):
+            # locals bound to type(key) before the dispatch
+            aliases = set()
+            disp = None
+            for st0 in lp.body:
+                if isinstance(st0, ast.Assign) and isinstance(st0.targets[0], ast.Name) and isinstance(st0.value, ast.Call) and call_name(st0.value) == "type" \
+                        and st0.value.args and dotted(st0.value.args[0]) == key:
+                    aliases.add(st0.targets[0].id)
+                    continue
+                if isinstance(st0, ast.If):
+                    disp = st0
+                break
+            if disp is None:
                 continue
-            arms, orelse = flow.closed_chain(lp.body[0])
+            arms, orelse = flow.closed_chain(disp)
             kinds = {}
             for t, body in arms:
-                k = _key_kind(t, key)
+                k = _key_kind(t, key, aliases)
                 if k:
                     kinds[k] = body
             if not kinds:
@@ -137,7 +148,18 @@ def r_transl(ctx):
     expr = params_of(dense)[0]
     roles = _array_roles(dense)            # name -> 'F' | 'G' | 'const'
     ret = [r for r in ast.walk(dense) if isinstance(r, ast.Return)]
-    order = [roles.get(e.id) for e in ret[0].value.elts] if len(ret) == 1 and isinstance(ret[0].value, ast.Tuple) else None
+    def role_of(name, depth=0):
+        if name in roles:
+            return roles[name]
+        if depth < 3:
+            for s2 in dense.body:
+                if isinstance(s2, ast.Assign) and dotted(s2.targets[0]) == name:
+                    rs = {role_of(n.id, depth + 1) for n in ast.walk(s2.value) if isinstance(n, ast.Name) and n.id != name and n.id not in ("np",)}
+                    rs.discard(None)
+                    if len(rs) == 1:
+                        return rs.pop()
+        return None
+    order = [role_of(e.id) for e in ret[0].value.elts] if len(ret) == 1 and isinstance(ret[0].value, ast.Tuple) else None
     ok = order == ["G", "F", "const"]
     ctx.ob("R-TRANSL", "expression_to_matrices::returns (G weights, F weights, constant)", ok,
            "returns (Gweights, Fweights, constant) sized by the class counters" if ok else "returns roles %s" % order, loc(dense, dense))
@@ -254,6 +276,17 @@ def _sparse_paths(body, p1, p2, cs, gi, gj, gv):
             out = {"i": [], "j": [], "v": []}
 
             def test_val(t):
+                if isinstance(t, ast.BoolOp):
+                    vals = [test_val(v) for v in t.values]
+                    if any(v is None for v in vals):
+                        return None
+                    return all(vals) if isinstance(t.op, ast.And) else any(vals)
+                if isinstance(t, ast.UnaryOp) and isinstance(t.op, ast.Not):
+                    v = test_val(t.operand)
+                    return None if v is None else not v
+                if isinstance(t, ast.Compare) and len(t.ops) == 1 and isinstance(t.ops[0], ast.NotIn):
+                    v = test_val(ast.Compare(left=t.left, ops=[ast.In()], comparators=t.comparators))
+                    return None if v is None else not v
                 txt = src(t).replace(" ", "")
                 if txt in ("(%s,%s)in%s.decomposition_dict" % (p2, p1, owner), "(%s,%s)in%s.decomposition_dict.keys()" % (p2, p1, owner)):
                     return bool(mirrored)
